@@ -88,10 +88,33 @@ def node_id(line):
     return line.split(' ')[1][3:]
 
 
+def skeleton_exploration(tier, res, stats):
+    """the skeleton extracted from graph.Initialize, run under the generic semantics (Scan/SkelSem.v), against
+    the hand-written transition system (Scan/Pool.v) through the abstraction Scan/SkelAbs.v: exhaustive over all
+    configurations for small pools and file counts, every readable / readFile-fails / ParseCtx-fails assignment"""
+    plan = [(3, 1), (2, 2), (0, 5)] if tier == 'quick' else [(4, 1), (3, 2), (2, 3), (1, 5)]
+    for nmax, w in plan:
+        rc, o, e = run([B + '/model', 'skel', str(nmax), str(w)], timeout=3000)
+        line = [l for l in o.decode().splitlines() if l.startswith('SKEL ')]
+        if rc != 0 or not line:
+            res.tie_broken.append('skeleton exploration could not run: ' + e.decode(errors='replace')[-200:])
+            return
+        kv = dict(x.split('=') for x in line[0].split(' ')[1:])
+        stats['skeleton_configurations'] += int(kv['configurations'])
+        stats['skeleton_pool_states'] += int(kv['pool_states'])
+        stats['skeleton_pool_edges'] += int(kv['pool_edges'])
+        stats['skeleton_instances'] += sum(3 ** n for n in range(nmax + 1))
+        if int(kv['problems']):
+            probs = [l[8:] for l in o.decode().splitlines() if l.startswith('PROBLEM ')]
+            res.tie_broken.append('Scan/Pool.v is not the behaviour of the skeleton extracted from graph.Initialize under the generic channel semantics (workers=%d, files<=%d): %s' % (w, nmax, '; '.join(probs[:3])))
+            return
+
+
 def check_c07(pid, tier, seed, res, work):
     rng = random.Random('c07/%d' % seed)
     stats = Counter()
     samples = []
+    skeleton_exploration(tier, res, stats)
     sizes = [0, 1, 2, 3, 4, 5, 6, 9, 14] if tier == 'quick' else [0, 1, 2, 3, 4, 4, 5, 6, 7, 11, 20, 60, 200]
     # (number of files, entries that cannot be read: dangling links named *.java sorting first / in the middle / last)
     plan = [(n, []) for n in sizes] + [(0, ['Gone.java']), (1, ['zz/Gone.java']), (2, ['0first/Gone.java', 'zz/Last.java']), (3, ['a/Mid.java']),
